@@ -18,10 +18,10 @@ def mc(technique, text, note, design):
     return dict(technique=technique, text=text, note=note, design=design)
 
 CLAIMS = {
- "C01": mc("bounded symbolic execution (z3 LRA) of the real problem layer with symbolic bounds/x0/points, and of whole runs; assertion: every logged user-function/callback/returned point inside the user's box",
+ "C01": mc("bounded symbolic execution (z3 LRA, plus a bit-precise z3 binary64 re-check of the build_x clauses) of the real problem layer with symbolic bounds/x0/points, of the step glue, and of whole runs; assertion: every logged user-function/callback/returned/trial point inside the user's box",
    "Part (a) of the property (observable points): for every bound pattern (free/lower/upper/two-sided/fixed), symbolic bounds, x0 and internal point anywhere (n<=2, scale on/off), z3 proves that every argument of a user function and the returned x lie inside [lb, ub] and fixed variables are pinned (harness/pb.py); the same is asserted on every path of the control-flow harness for every user call, callback argument and result. " + CTL +
    "Part (b), by construction: with SYMBOLIC geometry (any box with lb<ub finite or infinite, any x0/centre inside, any radius) z3 proves that every initial interpolation point (n<=2 quick, n<=3 thorough) and every trial point composed by the real glue of get_trust_region_step / get_second_order_correction_step / get_geometry_step and minimize (x_best + normal + tangential, step += soc_step) lies inside the box BEFORE projection, for ANY steps the sub-solvers may return within their contract (harness/glue.py).",
-   CTLNOTE + "Exact real arithmetic for x*factor+shift; np.clip modelled with IEEE semantics.", "5/C01"),
+   CTLNOTE + "Exact real arithmetic, except family F of harness/pb.py where the 'inside [lb, ub] exactly' clauses are re-decided bit-precisely in IEEE binary64 by z3's FP solver on the mechanically translated terms (sx/fp.py).", "5/C01, 3.5"),
  "C02": mc("bounded symbolic execution (z3 LRA): reported fun/maxcv vs harness-side true violation computed from the user's statement and the logged user-function values",
    "For every path of the problem-layer harness (symbolic bounds, limits over -inf/finite/equal/+inf/NaN, symbolic point, values) and of the control-flow harness, z3 proves res.x was evaluated, res.fun is the value returned there and res.maxcv equals max(0, bound/linear/nonlinear excess) in the user's variables (margin 1e-7 / 1e-9). " + CTL,
    CTLNOTE + "H-PB value claims assume the internal point inside the internal box.", "5/C02"),
